@@ -8,8 +8,8 @@ way each writer does it (`self.__init__(self._array)` = `initRows`, or
 `self._array = np.array(partition_list(self._data, self.lengths))` = `rebuild`).
 
 The model is parametrised by `Cfg`: which of the proposed repairs is present in the tree
-that is being checked.  `Cfg.current` is `/repo` HEAD (all four repairs committed);
-`Cfg.asIs` / `Cfg.beforeC06` are older variants; the flags switch, function by function,
+that is being checked.  `Cfg.current` is `/repo` HEAD (all five repairs committed);
+`Cfg.asIs` / `Cfg.beforeC06` / `Cfg.beforePriority` are older variants; the flags switch, function by function,
 to the patched text of `/tmp/fix-proposals/{C05-ra-reads,C06-setitem-row-views,C06-array-row-views,C06-append-flat-row}.diff`.
 The harness holds the staged code to `Cfg.current` (and probes that every repair is in effect).
 
@@ -24,6 +24,7 @@ inductive Err
   | dataInvalid     -- enspara.exception.DataInvalid
   | garbled         -- the call RETURNS, but cells of the array now hold whole rows (not representable)
   | emptyArray      -- RaggedArray([]) : object without `_data`
+  | notRagged       -- the call RETURNS, but a plain 2-d ndarray instead of a RaggedArray
   deriving Repr, DecidableEq
 
 structure Cfg where
@@ -31,15 +32,17 @@ structure Cfg where
   rowViewsFix : Bool   -- C06-setitem-row-views.diff: row writes work on one view per row
   arrayViewsFix : Bool -- C06-array-row-views.diff: `_array` is never a 2-d object block
   appendFix : Bool     -- C06-append-flat-row.diff
+  priorityFix : Bool   -- C06-array-priority.diff: numpy scalars on the left defer to the reflected operators
   deriving Repr, DecidableEq
 
-/-- `/repo` HEAD: all four repairs are committed (`fix:` commits of C05-ra-reads, C06-setitem-row-views,
-C06-append-flat-row, C06-array-row-views) -/
-def Cfg.current : Cfg := ⟨true, true, true, true⟩
+/-- `/repo` HEAD: all five repairs are committed (`fix:` commits of C05-ra-reads, C06-setitem-row-views,
+C06-append-flat-row, C06-array-row-views, C06-array-priority) -/
+def Cfg.current : Cfg := ⟨true, true, true, true, true⟩
 abbrev Cfg.fixed : Cfg := Cfg.current
 /-- older variants, kept only to state what the repairs changed -/
-def Cfg.asIs : Cfg := ⟨false, false, false, false⟩          -- before the read-side repair
-def Cfg.beforeC06 : Cfg := ⟨true, false, false, false⟩      -- read-side repair only
+def Cfg.asIs : Cfg := ⟨false, false, false, false, false⟩          -- before the read-side repair
+def Cfg.beforeC06 : Cfg := ⟨true, false, false, false, false⟩      -- read-side repair only
+def Cfg.beforePriority : Cfg := ⟨true, true, true, true, false⟩    -- without `__array_priority__`
 
 variable {α : Type}
 
@@ -404,6 +407,9 @@ inductive Op (α : Type)
   | binop (f : α → α)                                             -- b = a ⊕ scalar, b = ~a, b = a < c …
   | binop2 (g : α → α → α) (o : List (List α))                    -- b = a ⊕ RaggedArray(o)
   | copyCtor (viaFlat np : Bool)                                  -- a = RaggedArray(copy of a's content)
+  /-- `b = c ⊕ a` (`rebind = false`) or `a = c ⊕ a` (`rebind = true`) where the LEFT operand `c` is a
+  numpy scalar or 0-d array (`np.int64(2) * a`, `w[0] + a`, `np.float32(1) < a`) -/
+  | npLeft (f : α → α) (rebind : Bool)
 
 /-- `RaggedArray(array=new_data, lengths=self.lengths)` of `map_operator` / `__invert__` -/
 def mapOp {β : Type} (cfg : Cfg) (f : α → β) (s : State α) : Except Err (State β) :=
@@ -498,6 +504,18 @@ def setRowsWith (cfg : Cfg) (s : State α) (form : Form) (vs : List (List α)) :
         (leak cfg s || (leakVal cfg form vs && s.kind cfg != .typedBlock)) with
       | .error e => .error e
       | .ok s' => .ok (s', none))
+
+/-- numpy's own scalar operator runs first: without `__array_priority__` it converts the ragged array
+through `__len__/__getitem__` — an inhomogeneous-shape ValueError for unequal rows, a plain 2-d ndarray
+(not a RaggedArray) for equal rows; with it, numpy defers to `RaggedArray.__r<op>__` -/
+def npLeftStep (cfg : Cfg) (s : State α) (f : α → α) (rebind : Bool) :
+    Except Err (State α × Option (State α)) :=
+  if cfg.priorityFix then
+    match mapOp cfg f s with
+    | .error e => .error e
+    | .ok b => if rebind then .ok (b, none) else .ok (s, some b)
+  else if allEq s.lengths then .error .notRagged
+  else .error .valueError
 
 def step (cfg : Cfg) (s : State α) : Op α → Except Err (State α × Option (State α))
   | .setElem i j x =>
@@ -644,6 +662,7 @@ def step (cfg : Cfg) (s : State α) : Op α → Except Err (State α × Option (
       match initRows s.array with
       | .error e => .error e
       | .ok s' => .ok (s', none)
+  | .npLeft f rebind => npLeftStep cfg s f rebind
 
 /-- a history: a rejected operation leaves the object as it was -/
 def run (cfg : Cfg) (s : State α) : List (Op α) → State α
@@ -858,6 +877,8 @@ def specStep (rows : Rows α) : Op α → Except Err (Rows α × Option (Rows α
       .ok (rows, some (List.zipWith (List.zipWith g) rows o))
     else .error .valueError
   | .copyCtor _ _ => .ok (rows, none)
+  | .npLeft f rebind =>
+    if rebind then .ok (rows.map (·.map f), none) else .ok (rows, some (rows.map (·.map f)))
 
 def specRun (rows : Rows α) : List (Op α) → Rows α
   | [] => rows
